@@ -120,7 +120,7 @@ def run(ctx):
         traces.append(tr)
     hostdrive.compare(ctx, traces)
     reset_scenarios(ctx)
-    run_generic(ctx, hostdrive.monitor_c20, ctx.scale(100, 2500), allow_reset=True,
+    run_generic(ctx, hostdrive.monitor_c20, ctx.scale(250, 2500), allow_reset=True,
                 weights=dict(start=5, ack=4, rsp=2, tick=2, cancel=0.5, badack=0.5, close=1.2, lost=0.8, reset=0.4))
 
 
